@@ -141,7 +141,7 @@ func c16RouteRun(c c16RouteCase) (out c16RouteOut) {
 	exchange := func(p *c16Party, secret []byte) {
 		// the dialer talks first
 		if p.role == 'D' || p.role == 'E' {
-			if _, err := p.conn.Write(c16Tag('D', secret, p.sess)); err != nil {
+			if err := c16WriteTag(p.conn, c16Tag('D', secret, p.sess), c16TagWait); err != nil {
 				p.xerr = err
 				return
 			}
@@ -152,7 +152,7 @@ func c16RouteRun(c c16RouteCase) (out c16RouteOut) {
 		if p.xerr != nil {
 			return
 		}
-		if _, err := p.conn.Write(c16Tag('A', secret, p.sess)); err != nil {
+		if err := c16WriteTag(p.conn, c16Tag('A', secret, p.sess), c16TagWait); err != nil {
 			p.xerr = err
 		}
 	}
